@@ -5,6 +5,9 @@ import (
 	"fmt"
 	"image/color"
 	"math"
+	"os"
+	"runtime"
+	"strconv"
 	"strings"
 	"testing"
 
@@ -32,7 +35,10 @@ func init() {
 				continue
 			}
 			ev.RegisterProbe(name+"."+e, func() string {
-				for _, code := range []int{0, 1, 7, 85, 200, 255, 12345, 65534, 65535} {
+				if n, err := strconv.Atoi(os.Getenv("VERIF_PROBE_PROCS")); err == nil && n > 0 {
+					runtime.GOMAXPROCS(n)
+				}
+				for _, code := range []int{0, 1, 7, 85, 200, 255, 12345, 32768, 65530, 65531, 65532, 65533, 65534, 65535} {
 					if code >= 1<<bits {
 						continue
 					}
@@ -226,7 +232,11 @@ func TestC01(t *testing.T) {
 	ev.Set("tolerance_abs", tol)
 	ev.Assume("the published EOTF constants transcribed in internal/ref (IEC 61966-2-1, Adobe RGB (1998) gamma 563/256, ROMM RGB Et=1/512) are correct")
 
-	ev.ProbeOrders(ev.Pick(8, 150))
+	for _, procs := range []string{"", "3", "5", "6", "7", "12"} {
+		os.Setenv("VERIF_PROBE_PROCS", procs)
+		ev.ProbeOrders(ev.Pick(2, 25))
+	}
+	os.Unsetenv("VERIF_PROBE_PROCS")
 	// the first 16-bit call in the process takes the initialise-and-return path:
 	// make it at a seed-chosen code, per space, and check its value
 	for i := range sp.Spaces {
